@@ -27,6 +27,7 @@ prop(
         st("shapes", "c02", "TestShapes", timeout_q=600, timeout_t=1800),
         st("mutants", "c02", "TestMutants", timeout_q=600, timeout_t=1800),
         st("hosttwins", "c02", "TestHostTwins", timeout_q=600, timeout_t=1800),
+        st("fuzz", "c02", "FuzzC02", fuzz=True, tiers=["thorough"], fuzztime_t="120s"),
     ],
     floors=[dict(stage="alphabet", key="evaluations", min=1_000_000), dict(stage="shapes", key="v6_shapes", min=100_000)],
     assumptions=[STDLIB, "strings longer than the enumerated bounds are only sampled"],
@@ -41,7 +42,7 @@ prop(
     "reference-grammar monitor: every generated name is judged by the three validators and by a regexp grammar over idna.ToASCII(s) written from the statement; "
     "subset chain, error type and AddrError.Addr asserted on every call. " + NAMEGEN +
     ". Non-trivial: the name reaches the label loops (non-empty, <=300 bytes) or is grammar-valid; enumerations do not repeat names, random families may (counted once per emission)",
-    [st("grammar", "names", "TestC03", timeout_q=600, timeout_t=2400)],
+    [st("grammar", "names", "TestC03", timeout_q=600, timeout_t=2400), st("fuzz", "names", "FuzzC03", fuzz=True, tiers=["thorough"], fuzztime_t="120s")],
     floors=[dict(stage="grammar", key="evaluations", min=1_000_000), dict(stage="grammar", key="domain_valid_by_grammar", min=10_000)],
     assumptions=["idna.ToASCII of golang.org/x/net v0.39.0 (the version golibs pins) is the ToASCII the statement names"],
 )
@@ -50,7 +51,7 @@ prop(
     "round-trip + canonical-form monitor: addresses are encoded and compared with an independent RFC 1035/3596 encoder, then decoded in lower/UPPER/random case with and without a trailing dot; "
     "every name-shaped string of the shared families is given to the decoder and anything accepted must equal the canonical name of the returned address. " + NAMEGEN +
     ". Non-trivial: a valid address round trip, or a name that mentions '.arpa' / is accepted",
-    [st("codec", "names", "TestC04", timeout_q=600, timeout_t=3000)],
+    [st("codec", "names", "TestC04", timeout_q=600, timeout_t=3000), st("fuzz", "names", "FuzzC04", fuzz=True, tiers=["thorough"], fuzztime_t="90s")],
     floors=[dict(stage="codec", key="addr_roundtrips", min=100_000), dict(stage="codec", key="names_accepted", min=1_000)],
 )
 prop(
@@ -58,7 +59,7 @@ prop(
     "reference-decoder monitor: PrefixFromReversedAddr and ExtractReversedAddr are compared (success and value) with a label-sequence decoder written from the statement; "
     "ExtractReversedAddr's reference is the longest label-aligned suffix the prefix reference accepts, gated by golibs' own ValidateDomainName (decided by C03). " + NAMEGEN +
     ". Non-trivial: the statement accepts the name or it mentions 'arpa'",
-    [st("prefix", "names", "TestC05", timeout_q=600, timeout_t=2400)],
+    [st("prefix", "names", "TestC05", timeout_q=600, timeout_t=2400), st("fuzz", "names", "FuzzC05", fuzz=True, tiers=["thorough"], fuzztime_t="120s")],
     floors=[dict(stage="prefix", key="evaluations", min=1_000_000), dict(stage="prefix", key="prefix_accepted_by_statement", min=10_000)],
 )
 
@@ -79,7 +80,8 @@ prop(
     "SplitTrimmed with Split(TrimSpace) -> trim -> drop empties (non-nil). Exhaustive (s, sub) pairs over every rune of every simple-fold orbit with more than two members (computed from unicode.SimpleFold) "
     "plus controls, needles inserted as random case variants at every offset of random haystacks, all strings up to length 6(7) over a 12-symbol whitespace/separator alphabet x 18 separators. "
     "Non-trivial: the scan loop is entered (len(s)>len(sub)>0) / the input contains the separator or outer whitespace; enumerated pairs are distinct by construction",
-    [st("fold", "c13", "TestFold", timeout_q=600, timeout_t=3000), st("split", "c13", "TestSplit", timeout_q=600, timeout_t=1800)],
+    [st("fold", "c13", "TestFold", timeout_q=600, timeout_t=3000), st("split", "c13", "TestSplit", timeout_q=600, timeout_t=1800),
+     st("fuzz", "c13", "FuzzC13", fuzz=True, tiers=["thorough"], fuzztime_t="120s")],
     floors=[dict(stage="fold", key="evaluations", min=10_000_000), dict(stage="split", key="evaluations", min=1_000_000)],
     assumptions=["strings.EqualFold / unicode.SimpleFold of the pinned stdlib define 'simple case folding'", "operands are valid UTF-8 without U+FFFD (the statement's precondition)"],
 )
@@ -146,7 +148,7 @@ prop(
     "reference field-parser monitor: each line is parsed by Record.UnmarshalText and by a reference (cut at '#', FieldsFunc on space/tab, netip.ParseAddr, golibs' ValidateDomainName per name) and compared in acceptance, address, names, "
     "error class (ErrEmptyLine / ErrNoHosts / the address error text / *AddrError naming the first bad name with only the names before it retained); every accepted record is marshalled and re-parsed and must be equal. " + LINEGEN +
     ". Non-trivial: the line has a valid address and at least one name field (classes ok / name error)",
-    [st("record", "hosts", "TestC07", timeout_q=600, timeout_t=2400)],
+    [st("record", "hosts", "TestC07", timeout_q=600, timeout_t=2400), st("fuzz", "hosts", "FuzzC07", fuzz=True, tiers=["thorough"], fuzztime_t="120s")],
     floors=[dict(stage="record", key="evaluations", min=2_000_000), dict(stage="record", key="lines_ok", min=100_000), dict(stage="record", key="lines_name error", min=50_000)],
     assumptions=["ValidateDomainName is the name grammar (decided by C03), netip.ParseAddr the address grammar"],
 )
